@@ -65,11 +65,17 @@ type supThread struct {
 // the write is shortened to `tear` bytes and the process is killed when it returns.
 // opens: count read-only opens as well (needed when the order of reads matters).
 func Supervise(argv []string, env []string, prefix string, killAt int, tear int, stdout *os.File) (*SupResult, error) {
+	return SupervisePark(argv, env, prefix, killAt, tear, stdout, 0, nil)
+}
+
+// SupervisePark: like Supervise; additionally the thread that makes the parkAt-th relevant call is held at the
+// entry of that call while onPark runs (the other threads of the tracee keep running).
+func SupervisePark(argv []string, env []string, prefix string, killAt int, tear int, stdout *os.File, parkAt int, onPark func()) (*SupResult, error) {
 	runtime.LockOSThread()
 	defer runtime.UnlockOSThread()
 	cmd := exec.Command(argv[0], argv[1:]...)
 	cmd.Env = env
-	cmd.Stdout, cmd.Stderr = stdout, os.Stderr
+	cmd.Stdout, cmd.Stderr = stdout, stdout
 	cmd.SysProcAttr = &syscall.SysProcAttr{Ptrace: true, Setpgid: true}
 	if err := cmd.Start(); err != nil {
 		return nil, err
@@ -156,6 +162,9 @@ func Supervise(argv []string, env []string, prefix string, killAt int, tear int,
 								c.Len = int(regs.Rdx)
 							}
 							res.Calls = append(res.Calls, c)
+							if count == parkAt && onPark != nil {
+								onPark()
+							}
 							if count == killAt {
 								if (nm == "write" || nm == "pwrite64") && tear >= 0 && tear < int(regs.Rdx) {
 									regs.Rdx = uint64(tear)
